@@ -855,9 +855,11 @@ def long_entries(nshort, full):
     iu, iv = nshort, nshort + 1
     o = {"S,u,v": s + [iu, iv], "S,v,u": s + [iv, iu], "u,v,S": [iu, iv] + s, "v,u,S": [iv, iu] + s}
     f = {k: ",".join(map(str, v)) for k, v in o.items()}
+    if full == "two":
+        return ["simples_order:" + f["S,u,v"], "simples_order:" + f["S,v,u"], "av"]
     ents = ["simples_order:" + f[k] for k in ("S,u,v", "S,v,u", "u,v,S", "v,u,S")]
     ents += ["pin_order:" + f["S,u,v"], "pin_order:" + f["S,v,u"], "av", "strategy"]
-    if full:
+    if full == "full":
         ents += ["simples_check_all_order:" + f["S,u,v"], "simples_check_all_order:" + f["v,u,S"],
                  "simples_db_order:" + f["S,u,v"], "simples_db_order:" + f["S,v,u"],
                  "av_Basis_rev", "av_from_string", "strategy_rev_iter", "cli0"]
@@ -1221,18 +1223,21 @@ def run_same_length(ctx, quick, core2):
     for r in res:
         decisive[r[1]] += r[2]
     cases = []
-    for S in shorts:
+    for i, S in enumerate(shorts):
         dec = sorted(decisive[S])
         if not dec:
             raise RuntimeError("no decisive pin-permutation of length 6 for %r" % (S,))
-        for u in (classes if quick else nonpin):
-            cases.append((S + (u, dec[0]), len(S), not quick))
-        if not quick:
-            for v in dec[1:]:
-                cases.append((S + (classes[0], v), len(S), False))
+        # (basis, number of short elements, which ways of asking)
+        for u in classes:
+            cases.append((S + (u, dec[0]), len(S), "orders" if quick else "full"))
+        if not quick and i < 2:
+            # every non-pin-permutation, and every decisive v: the two orders and Av only
+            cases += [(S + (u, dec[0]), len(S), "two") for u in nonpin if u not in classes]
+        if not quick and i == 1:
+            cases += [(S + (classes[0], v), len(S), "two") for v in dec[1:]]
             # the long elements one at a time
-            cases += [(S + (u,), None, False) for u in classes]
-            cases += [(S + (v,), None, False) for v in dec[:3]]
+            cases += [(S + (u,), None, None) for u in classes]
+            cases += [(S + (v,), None, None) for v in dec[:3]]
     # perm_to_pinword_mapping(6) takes ~6 s to build: once here, inherited by the workers (this
     # is the last sub-check, so the other sub-checks fork from a process that never called the library)
     try:
@@ -1244,17 +1249,19 @@ def run_same_length(ctx, quick, core2):
         return
     G["longdb"] = os.path.join(ctx.work, "db6")
     os.makedirs(G["longdb"], exist_ok=True)
-    ctx.pmap(shard_long, [(c,) for c in chunked(cases, 1 if quick else 3)])
+    ctx.pmap(shard_long, [(c,) for c in chunked(cases, 1 if quick else 2)])
     ctx.bounds["same_length"] = {
         "S (orbit representatives of the two-element bases over S<=4 with finite special simples "
         "and infinite pin sequences)": [list(S) for S in shorts],
-        "u": "%d permutations of length 6 that are not pin-permutations (%s)"
-             % (len(classes) if quick else len(nonpin),
-                "one per symmetry class" if quick else "all 56"),
-        "v": {str(list(S)): ("the first of " if quick else "first with every u, all with one u; of ")
-              + "%d decisive pin-permutations of length 6" % len(decisive[S]) for S in shorts},
+        "u": "the %d symmetry class representatives of the 56 permutations of length 6 that are not "
+             "pin-permutations, with every S" % len(classes)
+             + ("" if quick else "; all 56 with the first two S (two orders of (u, v) and Av)"),
+        "v": {str(list(S)): "the first of %d decisive pin-permutations of length 6"
+              % len(decisive[S]) for S in shorts},
+        "v, thorough": "all decisive v with the second S and one u (two orders and Av); S + (u) and "
+                       "S + (v) alone for the second S",
         "bases": len(cases),
-        "ways of asking": long_entries(2, not quick)}
+        "ways of asking": long_entries(2, "orders" if quick else "full")}
     ctx.section("same_length", bases=len(cases), evaluations=ctx.evals - e0)
 
 
